@@ -29,11 +29,22 @@ def macro_instances(src, macro):
 
 
 # ---- translator for the integer branch of convert_type_fundamental (C06) -------------------------------
-ATOMS = [(r"is_signed_v<T_To>\s*==\s*is_signed_v<T_From>", "signEq"), (r"sizeof\(T_To\)\s*>=\s*sizeof\(T_From\)", "toGeFrom"),
-         (r"sizeof\(T_To\)\s*<=\s*sizeof\(T_From\)", "toLeFrom"), (r"sizeof\(T_To\)\s*<\s*sizeof\(T_From\)", "toLtFrom"),
-         (r"is_unsigned_v<T_To>", "toUns"), (r"is_unsigned_v<T_From>", "frUns"), (r"is_signed_v<T_To>", "toSig"), (r"is_signed_v<T_From>", "frSig")]
-CHECKS = [(r"from\s*<=\s*numeric_limits<T_To>::max\(\)", "leToMax"), (r"from\s*>=\s*numeric_limits<T_To>::min\(\)", "geToMin"),
-          (r"from\s*>=\s*0", "geZero"), (r"from\s*<=\s*static_cast<T_From>\(to_max\)", "leToMaxAsFrom")]
+S_ = r"(?:std::)?"
+ATOMS = [(S_ + r"is_signed_v<T_To>\s*==\s*" + S_ + r"is_signed_v<T_From>", "signEq"), (S_ + r"is_signed_v<T_From>\s*==\s*" + S_ + r"is_signed_v<T_To>", "signEq"),
+         (S_ + r"is_signed_v<T_To>\s*!=\s*" + S_ + r"is_signed_v<T_From>", "not signEq"), (S_ + r"is_signed_v<T_From>\s*!=\s*" + S_ + r"is_signed_v<T_To>", "not signEq"),
+         (S_ + r"is_unsigned_v<T_To>\s*==\s*" + S_ + r"is_unsigned_v<T_From>", "signEq"),
+         (r"sizeof\(T_To\)\s*>=\s*sizeof\(T_From\)", "toGeFrom"), (r"sizeof\(T_From\)\s*<=\s*sizeof\(T_To\)", "toGeFrom"),
+         (r"sizeof\(T_To\)\s*<=\s*sizeof\(T_From\)", "toLeFrom"), (r"sizeof\(T_From\)\s*>=\s*sizeof\(T_To\)", "toLeFrom"),
+         (r"sizeof\(T_To\)\s*<\s*sizeof\(T_From\)", "toLtFrom"), (r"sizeof\(T_From\)\s*>\s*sizeof\(T_To\)", "toLtFrom"),
+         (r"sizeof\(T_To\)\s*>\s*sizeof\(T_From\)", "toGtFrom"), (r"sizeof\(T_From\)\s*<\s*sizeof\(T_To\)", "toGtFrom"),
+         (r"sizeof\(T_To\)\s*==\s*sizeof\(T_From\)", "toEqFrom"), (r"sizeof\(T_From\)\s*==\s*sizeof\(T_To\)", "toEqFrom"),
+         (S_ + r"is_unsigned_v<T_To>", "toUns"), (S_ + r"is_unsigned_v<T_From>", "frUns"), (S_ + r"is_signed_v<T_To>", "toSig"), (S_ + r"is_signed_v<T_From>", "frSig")]
+NL_ = r"(?:std::)?numeric_limits<T_To>::"
+CHECKS = [(r"from\s*<=\s*" + NL_ + r"max\(\)", "leToMax"), (NL_ + r"max\(\)\s*>=\s*from", "leToMax"), (r"!\(\s*from\s*>\s*" + NL_ + r"max\(\)\s*\)", "leToMax"),
+          (r"from\s*>=\s*" + NL_ + r"min\(\)", "geToMin"), (NL_ + r"min\(\)\s*<=\s*from", "geToMin"), (r"!\(\s*from\s*<\s*" + NL_ + r"min\(\)\s*\)", "geToMin"),
+          (r"from\s*>=\s*0", "geZero"), (r"0\s*<=\s*from", "geZero"), (r"!\(\s*from\s*<\s*0\s*\)", "geZero"),
+          (r"from\s*<=\s*static_cast<T_From>\(to_max\)", "leToMaxAsFrom"), (r"static_cast<T_From>\(to_max\)\s*>=\s*from", "leToMaxAsFrom"),
+          (r"!\(\s*from\s*>\s*static_cast<T_From>\(to_max\)\s*\)", "leToMaxAsFrom")]
 
 
 def _strip_line_comments(t):
@@ -52,17 +63,34 @@ def _match_brace(t, i):
     raise ValueError("unbalanced")
 
 
+def _parse_atom(part):
+    part = part.strip()
+    m = re.fullmatch(r"!\s*\((.*)\)", part, flags=re.S)
+    if m and "&&" not in m.group(1) and "||" not in m.group(1):
+        return "(.not " + _paren(_parse_atom(m.group(1))) + ")"
+    m = re.fullmatch(r"!\s*(" + S_ + r"is_(?:un)?signed_v<T_(?:To|From)>)", part)
+    if m:
+        return "(.not " + _paren(_parse_atom(m.group(1))) + ")"
+    m = re.fullmatch(r"\((.*)\)", part, flags=re.S)
+    if m and m.group(1).count("(") == m.group(1).count(")") and "&&" not in m.group(1):
+        try:
+            return _parse_atom(m.group(1))
+        except ValueError:
+            pass
+    for pat, name in ATOMS:
+        if re.fullmatch(pat, part):
+            return "(.not .signEq)" if name == "not signEq" else "." + name
+    raise ValueError("unknown condition: " + part)
+
+
+def _paren(a):
+    return a
+
+
 def _parse_cond(c):
-    parts = [x.strip() for x in c.split("&&")]
-    out = []
-    for part in parts:
-        for pat, name in ATOMS:
-            if re.fullmatch(pat, part):
-                out.append(name)
-                break
-        else:
-            raise ValueError("unknown condition: " + part)
-    return out
+    if "||" in c:
+        raise ValueError("disjunction in a condition: " + c)
+    return [_parse_atom(x) for x in c.split("&&")]
 
 
 def _parse_checks(body):
@@ -125,10 +153,10 @@ def conv_chain_lean(conv_src):
         for atoms, body in top:
             if "if constexpr" in body:
                 sub = _parse_chain(body)
-                subs = ", ".join("([" + ", ".join("." + a for a in sa) + "], [" + ", ".join("." + c for c in _parse_checks(sb)) + "])" for sa, sb in sub)
-                items.append("([" + ", ".join("." + a for a in atoms) + "], .sub [" + subs + "])")
+                subs = ", ".join("([" + ", ".join(sa) + "], [" + ", ".join("." + c for c in _parse_checks(sb)) + "])" for sa, sb in sub)
+                items.append("([" + ", ".join(atoms) + "], .sub [" + subs + "])")
             else:
-                items.append("([" + ", ".join("." + a for a in atoms) + "], .checks [" + ", ".join("." + c for c in _parse_checks(body)) + "])")
+                items.append("([" + ", ".join(atoms) + "], .checks [" + ", ".join("." + c for c in _parse_checks(body)) + "])")
         return "[" + ",\n   ".join(items) + "]", None
     except (ValueError, IndexError) as e:
         return "[]", str(e)
